@@ -355,6 +355,62 @@ def ternary_rule(ctx):
     return obs
 
 
+def computed_mode_site(ctx, f, site, key, recv, outer_held, guard_of_mode, mode_nodes):
+    """an emission whose mode argument is not a constant: the innermost closure (or the function) around it is interpreted
+    abstractly; on every path that reaches the emission the mode value must be one for which the matching guard returned
+    true on that path (or holds outside, `outer_held`)"""
+    import absint as ai
+    ob = ctx.ob
+    pm = sir.parent_map(f.body)
+    body = f.body
+    p = site
+    while id(p) in pm:
+        p = pm[id(p)]
+        if p.get("k") == "closure":
+            body = p["body"]
+            break
+    all_guards = set(g for gs_ in guard_of_mode.values() for g in gs_)
+
+    def hooks(it, e, st):
+        if e.get("k") == "mcall" and e["m"] in all_guards:
+            r = sir.expr_str(e["recv"])
+            return [(True, st.event(("held", r, e["m"]))), (False, st)]
+        if e.get("k") == "mcall" and e["m"] == "lvalue_path" and len(e["args"]) == 3:
+            vals = [o.value for o in it.ev(e["args"][2], st) if o.kind == "val"]
+            return [(("Ok", ai.UNIT), st.event(("emit", id(e), vals[0] if len(vals) == 1 else ai.UNK)))]
+        return None
+    it = ai.Interp(hooks=hooks, idx=ctx.tc)
+    try:
+        outs = it.run(body, {})
+    except ai.TooManyPaths:
+        outs = None
+    if outs is None:
+        return ob(key, None, ctx.where(f), "computed mode `%s`: too many paths to follow" % sir.expr_str(site["args"][2]))
+    mode_vals = {}
+    for mstr, node in mode_nodes.items():
+        vs = [o.value for o in ai.Interp().run(node, {}) if o.kind == "val"]
+        if len(vs) == 1 and not ai.is_unknown(vs[0]):
+            mode_vals[mstr] = vs[0]
+    seen, bad, und = 0, [], []
+    for o in outs:
+        for i, ev in enumerate(o.events):
+            if ev[0] == "emit" and ev[1] == id(site):
+                seen += 1
+                mstr = [m_ for m_, v_ in mode_vals.items() if v_ == ev[2]]
+                if ai.is_unknown(ev[2]) or not mstr:
+                    und.append(ev[2])
+                    continue
+                names = guard_of_mode[mstr[0]]
+                held = [(h[1], h[2]) for h in o.events[:i] if h[0] == "held"] + list(outer_held)
+                if not any(r == recv and m in names for r, m in held):
+                    bad.append((mstr[0], held[:3]))
+    if bad:
+        return ob(key, False, ctx.where(f), "on some path lvalue_path(%s) is emitted without `%s.%s(..)` having returned true (held there: %s)" % (bad[0][0], recv, "|".join(sorted(guard_of_mode[bad[0][0]])), bad[0][1]))
+    if und or not seen:
+        return ob(key, None, ctx.where(f), "computed mode `%s` could not be followed to a constant on every path: the guard of this emission is not decided for this tree" % sir.expr_str(site["args"][2]))
+    return ob(key, True, ctx.where(f), "computed mode: on each of the %d paths reaching the emission the mode value is one whose guard returned true on that path" % seen)
+
+
 def guard_rule(ctx):
     import guards as G
     ob = ctx.ob
@@ -364,12 +420,14 @@ def guard_rule(ctx):
     # the guard of a mode is whichever method asks the legality predicate with that mode (`has_model_lvalue_path` ..): read from
     # the code, so that the encoding of the mode (Option<bool>, an enum) does not matter
     guard_of_mode = {}
+    mode_nodes = {}
     for g in tc.fns:
         if not g.body or g.name in ("is_legal_lvalue_path",):
             continue
         for x in sir.walk(g.body):
             if x.get("k") == "mcall" and x["m"] == "is_legal_lvalue_path" and len(x["args"]) == 2 and g.ret == "bool":
                 guard_of_mode.setdefault(sir.expr_str(x["args"][1]), set()).add(g.name)
+                mode_nodes[sir.expr_str(x["args"][1])] = x["args"][1]
     if len(guard_of_mode) < 3:
         return [ob("C11.guard/anchor", False, "proc_gen/expr.rs", "the per-mode guards (methods asking is_legal_lvalue_path with a fixed mode) were not found: %s" % guard_of_mode)]
     for f in tc.fns:
@@ -395,14 +453,15 @@ def guard_rule(ctx):
                 key = "C11.guard/%s/%s#%d" % (f.qual, mode, n)
                 names = guard_of_mode.get(mode)
                 if names is None:
-                    obs.append(ob(key, False, ctx.where(f), "lvalue_path is emitted with mode `%s`, for which no guard method exists" % mode))
+                    # the mode is computed (`Some(model)` with `model` chosen together with the guard): follow the values
+                    obs.append(computed_mode_site(ctx, f, x, key, recv, held, guard_of_mode, mode_nodes))
                     continue
                 ok = any(r == recv and m in names for r, m in held)
                 if not ok and any("general" in nm for nm in names):
                     ok = any("lvalue_path_from_data_scope" in m or "lvalue_path_from_data_scope" in r for r, m in held)
                 obs.append(ob(key, ok, ctx.where(f), "lvalue_path(%s) is emitted under `%s.%s(..)`; conditions holding there: %s" % (mode, recv, "|".join(sorted(names)), [("%s.%s" % h) for h in held][:4])))
-    if n < 8:
-        obs.append(ob("C11.floor/lvalue-sites", False, "proc_gen/tag.rs", "only %d lvalue_path emissions found (floor 8)" % n))
+    if n < 5:
+        obs.append(ob("C11.floor/lvalue-sites", False, "proc_gen/tag.rs", "only %d lvalue_path emissions found (floor 5; 10 on the reviewed tree, fewer when shared through a helper)" % n))
     return obs
 
 
